@@ -36,6 +36,9 @@ def ignore_specs(draw, sig, kind):
     pool += ['*', '**', '*', '**']
     if sig.get('varkw'):
         pool += S.XKW[:2]
+    if kind != 'method' and nn and draw(st.integers(0, 7)) == 0:
+        # the bare (non-sequence) spellings: a single index or a single name
+        return {'items': [draw(st.sampled_from([0, 0, nn - 1, H.sig_names(sig)[0]]))], 'style': 'bare'}
     if kind == 'method':
         items = draw(st.lists(st.sampled_from([x for x in pool if not isinstance(x, int)] + ['self', 'self']), min_size=1, max_size=4, unique=True))
     else:
